@@ -148,8 +148,9 @@ chk('C12', 'other',
     'NOT claimed as a solver verdict: ModelHash stability across processes / PYTHONHASHSEED / construction order and '
     'its sensitivity to content (two concrete companion probes, sampling: one model keyed in four interpreters; 40 '
     'models with pairwise different datasets created one after the other in one interpreter must get 40 keys, name / '
-    'description ignored, inits / statements / steps not), the generic-code parser round trip, Expr-bearing components '
-    'and Model. Trusted: JSON contract model (cross-checked against the real json '
+    'description ignored, inits / statements / steps not), the generic-code round trip and the Expr-bearing components '
+    '(a third probe: twelve model variants with joint distributions, rich compartmental systems, piecewise effects, BLQ '
+    'likelihood, falsy step options must parse back equal and with the same key). Trusted: JSON contract model (cross-checked against the real json '
     'module on failing paths, samples and jsonreal_* obligations) and the stubs shared with C06.',
     'symbolic execution (CrossHair+z3) of real to_dict/from_dict with a structural JSON model',
     'DESIGN.md section 3 C12', 'E1')
